@@ -98,6 +98,11 @@ def gen_construct(r: random.Random, depth: int = 0):
             if lvl == "bool":
                 x, t = f"({x})", f"({t})"
             return k, "${" + x + "}", f"__xonsh__.env[str({t})]", "primary"
+        if r.random() < 0.25:
+            # several keys: the subscript-style tuple is stringified as ONE value
+            a, b = r.choice(PY_SUBEXPRS), r.choice(PY_SUBEXPRS)
+            form = r.choice(["{a}, {b}", "({a}, {b})", "{a},", "{a}, {b}, 1"]).format(a=a, b=b)
+            return k, "${" + form + "}", f"__xonsh__.env[str(({form.strip('()')}))]", "primary"
         e = r.choice(PY_SUBEXPRS)
         return k, "${" + e + "}", f"__xonsh__.env[str({e})]", "primary"
     if k == "subproc":
